@@ -1184,6 +1184,15 @@ func (c *Compiler) adjustJumpTargets(headerOffset uint32) {
 				binary.LittleEndian.PutUint32(c.code[i:i+4], newTarget)
 			}
 			i += 4
+		} else if opcode == byte(vm.OpAsync) {
+			// The operand is the length of an embedded async body. The VM runs
+			// that body as a program of its own starting at pc 0, so the jump
+			// targets inside it are already final: skip the body instead of
+			// relocating them by the header size.
+			if i+4 <= len(c.code) {
+				i += int(binary.LittleEndian.Uint32(c.code[i : i+4]))
+			}
+			i += 4
 		} else if hasOperand(opcode) {
 			// Skip operand for other instructions with operands
 			i += 4
